@@ -619,8 +619,13 @@ loopX1:     \
 loopX0:    \
     CMPQ len, $0   \
     JLE cryptoBlocksDone     \
+    MOVQ len, reg2 \ // stage the 1..15 remaining bytes in the scratch block: a 16-byte load from src would read past the end of the input
+    copyAsm(tmp,src,len,reg3)  \
+    SUBQ reg2, tmp \
+    SUBQ reg2, src \
+    MOVQ reg2, len \
     fillCounterX1()   \
-    cryptoBlockAsmRemain(rk,tmp,src,reg3,reg1,reg2,reg3,blockCount)  \
+    cryptoBlockAsmRemain(rk,tmp,tmp,reg3,reg1,reg2,reg3,blockCount)  \
     clearRight(tmp,len,reg3,reg2) \
     MOVQ len, reg2 \
     copyAsm(dst,tmp,len,reg3)  \
